@@ -3,10 +3,9 @@ EXTENDS NeoVMInterop, Json
 BothModes == {"tx", "pre"}
 BothApis == {"new", "legacy"}
 NoDeviation == {}
-\* deviation cfgs (TLC must report Total / NoNilHandle violated: the specification can express the failure class)
-DevGetContract == {"GetContract"}
-DevGetBlock == {"GetBlock"}
-DevCreate == {"Create"}
+\* "what if" exploration: every producer with an absent target hands out a handle to nothing; the behaviours of
+\* this model are the adversarial scripts (producer for an absent target, then every consumer of the handle)
+AllProducers == {"GetHeader", "GetBlock", "GetTransaction", "GetContract", "Create"}
 
 Edge == PrintT(<<"EDGE", ToJson([from |-> State, act |-> act', to |-> State'])>>)
 InitOut == (TLCGet("level") = 1) => PrintT(<<"INIT", ToJson(State)>>)
